@@ -105,6 +105,9 @@ func genMotif(rt *rapid.T, w *World, motif int) {
 			shAff = shAff[:1]
 		}
 		w.Vulns = append(w.Vulns, affect("V3", sh, shAff...))
+		if chance(rt, "m.shrange", 2, 3) {
+			addRange(w, &w.Vulns[2].Affected[0])
+		}
 	case 2: // a fix that moves another vulnerability across a scope boundary
 		b, m, c, d := nm[0], nm[1], nm[2], nm[3]
 		f := form("m.form")
@@ -163,6 +166,26 @@ func genMotif(rt *rapid.T, w *World, motif int) {
 		case 3: // a second advisory on the same package with a different fix
 			_, bv2 := cut("m.cut2", c1)
 			w.Vulns = append(w.Vulns, affect("V2", bad, bv2...))
+		}
+	case 4: // a parent bump that fixes the child's vulnerability as a side effect, next to the child's own fix
+		a, x := nm[0], nm[1]
+		f := form("m.form")
+		mid := draw(rt, "m.mid", "1.3.0", "1.0.1", "1.1.0")
+		xv := []Ver{ver("1.0.0"), ver(mid), ver("2.0.0")}
+		top := []string{"2.0.0"}
+		if chance(rt, "m.xtop", 1, 2) {
+			xv = append(xv, ver("2.1.0"))
+			top = append(top, "2.1.0")
+		}
+		w.Universe = []Pkg{
+			pkg(a, ver("1.0.0", Dep{Name: x, Req: req(f, "1.0.0")}), ver("1.1.0", Dep{Name: x, Req: req(f, "2.0.0")})),
+			pkg(x, xv...),
+		}
+		direct(a, req(form("m.aform"), "1.0.0"), "dependencies")
+		w.Vulns = []VulnSpec{affect("V1", a, "1.0.0"), affect("V2", x, "1.0.0")}
+		// vulnerabilities without a fix in the child's newest line: they rank the parent bump low
+		for i, n := 0, draw(rt, "m.unfixable", 0, 1, 2, 2, 3); i < n; i++ {
+			w.Vulns = append(w.Vulns, affect(fmt.Sprintf("V%d", 3+i), x, top...))
 		}
 	}
 	for i := range w.Vulns {
